@@ -52,6 +52,28 @@ def neg_live(ctx, cfg, prop):
     ctx.cov.setdefault("negative_controls", []).append({"cfg": cfg, "violated": "temporal:" + prop, "wall_s": r["wall_s"]})
 
 
+def normalise(sched):
+    """StreamsGen prints C:s when Close is entered and c:s when it has released the lock; the real Close is one
+    call, made where the release is (c:s) when the behaviour got that far, else where it was entered."""
+    res = []
+    for i, st in enumerate(sched):
+        if st.startswith("C:"):
+            later = False
+            for t in sched[i + 1:]:
+                if t == "O:" + st[2:]:
+                    break
+                if t == "c:" + st[2:]:
+                    later = True
+                    break
+            if not later:
+                res.append(st)
+        elif st.startswith("c:"):
+            res.append("C:" + st[2:])
+        else:
+            res.append(st)
+    return res
+
+
 def judge(ctx, p, tr, ntraces, selftest, label=""):
     """Validate the driver's trace; a panic of the lock itself is a verdict of the real code, too."""
     rows = vlib.read_nd(tr) if os.path.exists(tr) else []
@@ -123,19 +145,30 @@ def run(ctx):
 
     # ---- (B)+(C): driver, then validation of its trace, in the background while TLC checks the design
     tr = os.path.join(ctx.scratch, "streams.ndjson")
-    runs, directed = ctx.pick(40, 160), ctx.pick(12, 48)
+    runs, directed = ctx.pick(40, 120), ctx.pick(12, 36)
     res = {}
 
     def drive():
         # schedules sampled from the design model (projection on the steps a driver can force)
-        cases, g = vlib.tlc_cases(ctx, "StreamsGen", "Streams_gen.cfg", simulate="num=%d" % ctx.pick(30, 120), depth=45, seed=ctx.seed)
-        scheds = sorted(set(tuple(c) for c in cases if c))
+        cases, g = vlib.tlc_cases(ctx, "StreamsGen", "Streams_gen.cfg", simulate="num=%d" % ctx.pick(30, 90), depth=45, seed=ctx.seed)
+        scheds = sorted(set(tuple(normalise(c)) for c in cases if c))
         if len(scheds) < 10:
             raise vlib.Undecided("schedule generator produced %d schedules\n%s" % (len(scheds), g["out"][-2000:]))
+        ctx.cov["generated_schedules"] = len(scheds)
+        if ctx.thorough:
+            # the counterexamples of the safety negative controls, as schedules: the real code must survive them
+            wit = []
+            for sw in ("StreamHoldsReadLock", "ReleaseOnce", "ReaperWaitsForReaders"):
+                w = vlib.tlc(ctx, "StreamsGen", "Streams_gen_neg_%s.cfg" % sw, workers=1, coverage=False, expect_violation=True, timeout=900)
+                m = re.findall(r"hist = (<<.*?>>)", w["out"], re.S)
+                if not w["violated"] or not m:
+                    raise vlib.Undecided("no witness schedule for %s\n%s" % (sw, w["out"][-2000:]))
+                wit.append(tuple(normalise(re.findall(r'"([^"]+)"', m[-1]))))
+            ctx.cov["witness_schedules"] = [" ".join(x) for x in wit]
+            scheds = wit * 3 + scheds
         sf = os.path.join(ctx.scratch, "sched.json")
         with open(sf, "w") as f:
             json.dump([list(x) for x in scheds], f)
-        ctx.cov["generated_schedules"] = len(scheds)
         p = ctx.run_harness(["streams-trace", "-out", tr, "-runs", str(runs), "-directed", str(directed), "-sched", sf],
                             timeout=ctx.pick(600, 2400), check=False)
         res["p"] = p
@@ -176,8 +209,10 @@ def run(ctx):
         tr2 = os.path.join(ctx.scratch, "streams-race.ndjson")
         p2 = ctx.run_harness(["streams-trace", "-out", tr2, "-runs", "25", "-directed", "12"], timeout=1800, check=False, race=True)
         races = re.findall(r"WARNING: DATA RACE", p2.stderr)
-        where = sorted(set(re.findall(r"(snapshot|rsync)\.\(\*?(\w+)\)\.(\w+)\(\)", p2.stderr)))
-        ctx.cov["race_detector"] = {"rc": p2.returncode, "data_races": len(races), "in": ["%s.%s.%s" % w for w in where][:12]}
+        frames = re.findall(r"^  (\S+)\(\)\s*$", p2.stderr, re.M)
+        where = sorted(set(f for f in frames if "rqlite/v10/snapshot" in f or "rqlite/v10/internal/rsync" in f))
+        ctx.cov["race_detector"] = {"rc": p2.returncode, "data_races": len(races), "frames_in_snapshot_or_rsync": where[:12],
+                                    "other_frames": sorted(set(frames) - set(where))[:8]}
         if p2.returncode == 0 or races:
             judge(ctx, p2, tr2, 37, selftest=False, label="race build")
     ctx.cov["exhaustive"] = False
@@ -185,5 +220,5 @@ def run(ctx):
         "lock events are emitted under the lock's mutex, ls.close under l.mu right after `closed` is set, ls.released after that streamer's EndRead: the order of trace lines is consistent with the code's own synchronisation",
         "the content oracle judges streams by the CRC32s of their own header, byte equality with other streams of the same snapshot ID and the rows of the restored database; a rewritten data.db can be observed only through bytes actually read",
         "the Go scheduler provides the interleavings of the free runs; the directed schedules fix only the order of lock acquisitions (hand-off on one P), not every instruction",
-        "liveness on the real store is judged with long timeouts (5 s against idle timeouts of 4-16 ms)",
+        "liveness on the real store is judged with long timeouts (90 s against idle timeouts of 4-50 ms; a reap fsyncs and was seen to take 19 s on the loaded machine)",
     ]
